@@ -58,6 +58,12 @@ def _shapes_c02_1(tier):
                         # parameter sets - did not finish in 70 minutes)
                         for delta in ((0,) if tier == "quick" or
                                       (n0, n1) != (3, 3) else (0, -1, 1)):
+                            if (n0, n1) == (17, 17) and block == 16 and \
+                                    kind == "cbc" and tuple(ver) >= (3, 2):
+                                # two 17-byte records with explicit IV under
+                                # MAC-then-encrypt: 19-21 minutes per job,
+                                # at the edge of the job budget - not claimed
+                                continue
                             if delta == 1 and block == 16:
                                 # a record extended by a 16-byte block: the
                                 # padding/MAC query ran into the solver's
@@ -78,7 +84,7 @@ def _shapes_c02_1(tier):
 @obligation("C02.1", _shapes_c02_1,
             functions=RL_FUNCS, assumes=ASSUMES,
             patches=lambda shape: (rl_proxies(), []),
-            timeout=(300, 1200), max_paths=5000, also=("C08",))
+            timeout=(300, 1800), max_paths=5000, also=("C08",))
 def c02_1(I, shape):
     """acceptance implies (type, plaintext) == the writer's next record"""
     mode = shape["mode"]
